@@ -27,6 +27,9 @@ def fact_key(v):
 
 
 
+PURE_STDLIB = frozenset(["contextlib", "functools", "operator", "itertools", "collections", "string", "math", "enum", "bisect",
+                         "binascii", "codecs", "dataclasses", "array", "heapq", "copy", "struct", "textwrap", "numbers", "types"])
+
 def spec_to_directive(spec, conversion=-1):
     """a format-spec of str.format / an f-string as the %-directive that prints the same way (as far as the rules look:
     integer presentation types d x X keep their type and zero-padded width, everything else is %s / %r)"""
@@ -44,8 +47,22 @@ class OpsMixin:
     def eval(self, e, frame):
         m = getattr(self, "ex_" + type(e).__name__, None)
         if m is None:
-            return Unknown("unsupported expression %s" % type(e).__name__)
+            raise AnalysisError("unsupported-syntax", "%s expression at %s" % (type(e).__name__, frame.where(e)))
         return m(e, frame)
+
+    def ex_NamedExpr(self, e, frame):
+        v = self.eval(e.value, frame)
+        self.assign(e.target, v, frame)
+        return v
+
+    def ex_YieldFrom(self, e, frame):
+        src = self.eval(e.value, frame)
+        items = self.iterate(src, e, frame)
+        sink = getattr(frame, "yield_sink", None)
+        if items is None or sink is None or getattr(frame, "yield_inline", None) is not None:
+            raise AnalysisError("unsupported-syntax", "yield from over a dynamic iterable at %s" % frame.where(e))
+        sink.extend(items)
+        return None
 
     def ex_Constant(self, e, frame):
         return e.value
@@ -53,6 +70,10 @@ class OpsMixin:
     def ex_Name(self, e, frame):
         v = self.lookup_name(e.id, frame, default=_ABSENT)
         if v is _ABSENT:
+            import builtins as _py_builtins
+            if hasattr(_py_builtins, e.id):
+                # a real builtin the model does not have: the analysis cannot say what the code does -- never a NameError
+                raise AnalysisError("unmodelled-builtin", "%s used at %s" % (e.id, frame.where(e)))
             self.event("name-error", name=e.id, where=frame.where(e), node=e)
             raise PyRaise(Instance(self.bclasses["NameError"], (e.id,)), e, frame.where(e))
         return v
@@ -223,6 +244,10 @@ class OpsMixin:
     def ex_Yield(self, e, frame):
         v = self.eval(e.value, frame) if e.value is not None else None
         f = frame
+        inline = getattr(f, "yield_inline", None)
+        if inline is not None:
+            inline(v)                   # a context manager's generator: the with block runs here
+            return None
         sink = getattr(f, "yield_sink", None)
         if sink is not None:
             sink.append(v)
@@ -377,6 +402,14 @@ class OpsMixin:
                 keys = [norm_int(e) for e in seq]
                 return (_bisect.bisect_left if fn.name.endswith("_left") else _bisect.bisect_right)(keys, x)
             return Unknown("bisect over dynamic operands")
+        if isinstance(fn, External) and fn.name == "contextlib.ExitStack" and not args:
+            return ExitStackVal()
+        if isinstance(fn, External) and fn.name in ("operator.attrgetter", "operator.itemgetter") and len(args) == 1 and not kwargs:
+            key = args[0]
+            if fn.name.endswith("attrgetter") and isinstance(key, str) and "." not in key:
+                return Builtin("attrgetter(%s)" % key, lambda a, k, n, f: self.get_attr(a[0], key, n, f))
+            if fn.name.endswith("itemgetter"):
+                return Builtin("itemgetter(%r)" % (key,), lambda a, k, n, f: self.get_item(a[0], key, n, f))
         if isinstance(fn, External) and fn.name in ("importlib.util.find_spec", "importlib.import_module") and args \
                 and isinstance(args[0], str):
             top = args[0].split(".")[0]
@@ -407,6 +440,33 @@ class OpsMixin:
                     acc = self.call(f, [acc, x], {}, node, frame)
                 return acc
             return self.binop({"operator.or_": "|", "operator.add": "+", "operator.lshift": "<<"}[fn.name], args[0], args[1], node, frame)
+        if isinstance(fn, External) and fn.name in ("itertools.chain", "itertools.chain.from_iterable"):
+            srcs = args if fn.name.endswith("chain") else self.iterate(args[0], node, frame)
+            out = []
+            for src in (srcs or []):
+                items = self.iterate(src, node, frame)
+                if items is None:
+                    return Unknown("chain over dynamic")
+                out.extend(items)
+            return GenVal(out)
+        if isinstance(fn, External) and fn.name in ("copy.copy", "copy.deepcopy") and len(args) == 1:
+            v = args[0]
+            if isinstance(v, Buf):
+                return v.copy()
+            if self.is_static(v) or isinstance(v, (dict, list, tuple, set)):
+                import copy as _copy
+                try:
+                    return _copy.copy(v) if fn.name.endswith(".copy") else _copy.deepcopy(v)
+                except Exception:
+                    return Unknown("copy of abstract value")
+            return Unknown("copy of abstract value")
+        if isinstance(fn, External) and fn.name in ("collections.OrderedDict",):
+            return self.builtin_ctors["dict"](args, kwargs, node, frame)
+        if isinstance(fn, External) and fn.name.split(".")[0] in PURE_STDLIB and not fn.name.startswith("functools.wraps") \
+                and fn.name not in ("contextlib.contextmanager", "functools.lru_cache", "functools.cache", "functools.cached_property"):
+            # a function of the standard library whose effect is part of what the code does: with no model of it the analysis
+            # cannot say what happens -- never guess
+            raise AnalysisError("unmodelled-stdlib", "%s used at %s" % (fn.name, frame.where(node)))
         if isinstance(fn, External):
             self.event("external-call", name=fn.name, args=args, kwargs=kwargs, node=node,
                        where=frame.where(node), fn=fn)
@@ -571,6 +631,10 @@ class OpsMixin:
             return r if isinstance(op, ast.In) else not r
         o = CMPOPS[type(op)]
         if isinstance(a, Unknown) or isinstance(b, Unknown):
+            # a comparison with a value the analysis lost: both outcomes are explored, unrelated to any other decision about
+            # the same quantity -- conclusions that need such decisions to agree are not reliable on this path
+            self.event("imprecise-decision", what=self.describe_cond(node), where=frame.where(node), node=node,
+                       reason=(a.reason if isinstance(a, Unknown) else b.reason))
             return self.decide(self.describe_cond(node), node, frame)
         # static python values
         if self.is_static(a) and self.is_static(b):
@@ -585,9 +649,21 @@ class OpsMixin:
             r = sym_compare(o, an, bn)
             if r is None:
                 r = self.compare_with_facts(o, an, bn)
+            mk = None
+            if r is None and isinstance(an, Sym) and isinstance(bn, Sym):
+                # the same relation between the same two values, asked again on this path: the same answer
+                mk = ("cmp", an.key(), bn.key())
+                prior = self.facts.get(mk)
+                if prior is not None and o in prior:
+                    r = prior[o]
             if r is None:
                 r = self.decide(self.describe_cond(node), node, frame)
                 self.record_compare_fact(o, an, bn, r)
+                if mk is not None:
+                    known = dict(self.facts.get(mk) or {})
+                    known[o] = r
+                    known[{"<": ">=", ">=": "<", ">": "<=", "<=": ">", "==": "!=", "!=": "=="}[o]] = not r
+                    self.facts[mk] = known
             return r
         # bytes compared with str: always unequal, and an error under `python -bb`
         if o in ("==", "!=") and ((isinstance(a, (bytes, Buf, View, SymBytes)) and isinstance(b, (str, SymStr)))
@@ -828,6 +904,13 @@ class OpsMixin:
                     return False
                 if isinstance(container, range) and container.step == 1 and lo >= container.start and hi is not None and hi < container.stop:
                     return True
+                if not isinstance(container, range) and 2 <= len(cand) <= 4:
+                    # a handful of values: one equality decision per value (each with its exact path fact), like the
+                    # `x == a or x == b` it abbreviates
+                    for x in sorted(set(cand)):
+                        if self.compare(ast.Eq(), item, x, node, frame):
+                            return True
+                    return False
                 c = self.decide(self.describe_cond(node), node, frame)
                 k = fact_key(item)
                 if c:
